@@ -238,16 +238,30 @@ def run_ownership(progs, pool_of, workers, script, strict=True, policy=None):
         pools[p] = courier_worker.WorkerPool([f'{w}~{run_id}' for w in workers])
       orig_release = courier_worker.Worker.release
 
+      pending = {}        # thread -> what its current release() observed
+
       def traced_release(self, *a, **k):
+        # observes who owns the worker at the very moment its lock is given up, WITHOUT making release() atomic (holding the
+        # state lock around it would hide a check-then-act inside release itself)
         me = sch.current()
-        with self._states_lock:
-          before = next((p for p, obj in pools.items() if self._worker_pool is obj), 'none')
-          locked = self._lock.owner is not None
-          ret = orig_release(self, *a, **k)
-          after = next((p for p, obj in pools.items() if self._worker_pool is obj), 'none')
-        if locked and after == 'none' and before != 'none':
-          releases.append((me.name if me else '?', cur_pool.get(me.name if me else '?'), before))
-        return ret
+        lk = self._lock
+        if not getattr(lk, '_verif_observed', False):
+          real = lk.release
+
+          def observed_release(_w=self, _real=real):
+            info = pending.get(sch.current())
+            if info is not None:
+              info['before'] = next((p for p, obj in pools.items() if _w._worker_pool is obj), 'none')
+            return _real()
+          lk.release = observed_release
+          lk._verif_observed = True
+        info = pending[me] = {}
+        try:
+          return orig_release(self, *a, **k)
+        finally:
+          pending.pop(me, None)
+          if info.get('before', 'none') != 'none':
+            releases.append((me.name if me else '?', cur_pool.get(me.name if me else '?'), info['before']))
 
       courier_worker.Worker.release = traced_release
       # no servers in this part: a worker always has capacity and is alive
